@@ -128,3 +128,13 @@ class TSeq(TRef):
 class TExc(TRef):
     """exception object; class id in $cls"""
     pass
+
+
+class TTuple(TRef):
+    """heap tuple of fixed arity with per-position shapes (e.g. a (threshold, controller) pair)"""
+
+    def __init__(self, *elems):
+        self.elems = list(elems)
+
+    def describe(self):
+        return "Tuple(%s)" % ", ".join(e.describe() for e in self.elems)
